@@ -87,6 +87,11 @@ fn write_cfg(cfg: &Cfg, dir: &str, tag: &str) -> String {
 impl World {
     /// build an engine, wait for its start-up tick, then arm the hooks
     pub async fn new(cfg: &Cfg, workdir: &str, tag: &str, model: &Value) -> World {
+        Self::new_with(cfg, workdir, tag, model, true).await
+    }
+
+    /// `gated = false`: nothing is parked; the engine runs on its own threads (natural runs)
+    pub async fn new_with(cfg: &Cfg, workdir: &str, tag: &str, model: &Value, gated: bool) -> World {
         verif::reset();
         let path = write_cfg(cfg, workdir, tag);
         let mut builder = EngineBuilder::new().set_config_source(std::path::Path::new(&path));
@@ -100,9 +105,9 @@ impl World {
         settle().await;
         verif::clock_set(1_000_000);
         verif::log_enable(true);
-        verif::gate_arm(true);
-        verif::spawn_arm(true);
-        verif::dispatch_arm(true);
+        verif::gate_arm(gated);
+        verif::spawn_arm(gated);
+        verif::dispatch_arm(gated);
         let exec = engine.executor();
 
         let chan = engine.channel();
